@@ -7,7 +7,12 @@
      ver      text of the schema_version entry: "absent" | "0" | "1" | "2" | "3" | "10"
      name     value of the `project` entry ("" = no such entry): "None" (the v1 default) | "plain" | "fancy"
               (the harness maps the tokens to real ASCII names, "fancy" has spaces, comma, quote, '#', brackets)
-     wsKey    value of the `workspace_dir` entry ("" = no entry): "workspace" | "custom" | "nested"
+     wsKey    spelling of the `workspace_dir` entry ("" = no entry); each spelling designates a location (LocOf):
+                "workspace" 'workspace'   "dotws" './workspace'   "wsslash" 'workspace/'        -> workspace
+                "custom" 'my_workspace'   "custom2" 'workspace2'                                 -> custom / custom2
+                "dotcustom" './ws'        "customslash" 'ws/'                                    -> ws
+                "nested" 'data/ws dir'    "nestedws" 'scratch/workspace'   "deepws" 'a/b/workspace'  (nested paths;
+                the last two END in a component that is itself called 'workspace')
      dirs     what stands at each candidate workspace location:  "absent" | "jobs" (the directory that holds
               the job directories) | "stray" (an unrelated directory with a file in it) | "empty" (an empty
               directory, as created by opening a project that had no 'workspace')
@@ -27,6 +32,11 @@
                        legacy layout signac ever wrote: RuntimeError, nothing changed.
      CAL_NullBump      a failing 1 -> 2 step leaves the version already bumped to 1 by the 0 -> 1 step.
      CAL_DataDir       the emptied parent of a nested custom workspace stays behind.
+     DEVIATION D1 (constant FixedD1, probed by the harness): the pinned tree compares the workspace_dir TEXT with
+                       'workspace'; './workspace' and 'workspace/' - the default location spelled differently - are
+                       taken for a custom directory that collides with itself, and the migration is refused
+                       (RuntimeError, nothing lost).  The REQUIREMENT (MigratePreserves with fx = TRUE, exported as
+                       `req`) is that such a project migrates like the default one.
      CAL_OpenCreatesWorkspace  successfully opening an up-to-date project that has no 'workspace' directory
                        creates an empty one (and nothing else); a REFUSED open creates nothing.
 
@@ -38,28 +48,37 @@ EXTENDS Naturals, Sequences, FiniteSets, TLC, Json, IOUtils, SequencesExt
 
 CONSTANTS NJ,       \* set of job counts, subset of 0..5
           SMALL,    \* TRUE: tie some independent boolean options together (quick tier)
-          MODE      \* "product" | "file" (layouts recorded by the harness from randomly generated real projects)
+          MODE,     \* "product" | "file" (layouts recorded by the harness from randomly generated real projects)
+          FixedD1   \* FALSE: model deviation D1 as the pinned tree behaves; TRUE: the requirement
 
 Vers   == {"absent", "0", "1", "2", "3", "10"}
-WsLocs == {"workspace", "custom", "nested"}
+WsLocs == {"workspace", "custom", "custom2", "ws", "nested", "nestedws", "deepws"}
 Num(v) == CASE v = "absent" -> 0 [] v = "0" -> 0 [] v = "1" -> 1 [] v = "2" -> 2 [] v = "3" -> 3 [] v = "10" -> 10
 
-Dirs(w, c, n) == [workspace |-> w, custom |-> c, nested |-> n]
+\* which directory a workspace_dir spelling designates
+LocOf(k) == CASE k \in {"", "workspace", "dotws", "wsslash"} -> "workspace"
+              [] k \in {"dotcustom", "customslash"} -> "ws"
+              [] OTHER -> k                                \* custom custom2 nested nestedws deepws
+NestedLocs == {"nested", "nestedws", "deepws"}            \* their parent directories stay behind (CAL_DataDir)
+SelfSpelled(k) == k \in {"dotws", "wsslash"}              \* the default location, not spelled 'workspace'
+
+NoDirs == [w \in WsLocs |-> "absent"]
+JobsAt(loc) == [NoDirs EXCEPT ![loc] = "jobs"]
+Dirs(w, c, n) == [NoDirs EXCEPT !.workspace = w, !.custom = c, !.nested = n]
 
 \* the exhaustive product of the option sets
-WsOptions ==   \* <<wsKey, dirs, dataDir>>
-  {<<"", Dirs("jobs", "absent", "absent"), FALSE>>,            \* default
-   <<"workspace", Dirs("jobs", "absent", "absent"), FALSE>>,   \* default, spelled out
-   <<"custom", Dirs("absent", "jobs", "absent"), FALSE>>,      \* relative custom
-   <<"nested", Dirs("absent", "absent", "jobs"), TRUE>>,       \* nested custom
-   <<"custom", Dirs("stray", "jobs", "absent"), FALSE>>,       \* custom, colliding with an existing 'workspace'
-   <<"nested", Dirs("stray", "absent", "jobs"), TRUE>>}        \* nested custom, colliding
+WsOptions ==   \* <<wsKey, dirs, dataDir>>: every spelling with its jobs in place; every real custom location also
+               \* colliding with an existing, unrelated 'workspace'
+  {<<k, JobsAt(LocOf(k)), LocOf(k) \in NestedLocs>>
+     : k \in {"", "workspace", "dotws", "wsslash", "custom", "custom2", "dotcustom", "customslash", "nested", "nestedws", "deepws"}}
+  \cup {<<k, [JobsAt(LocOf(k)) EXCEPT !.workspace = "stray"], LocOf(k) \in NestedLocs>>
+         : k \in {"custom", "nested", "nestedws", "deepws", "customslash"}}
 Bools(tied) == IF SMALL THEN {<<b, b>> : b \in BOOLEAN} ELSE BOOLEAN \X BOOLEAN
 RcLayouts ==
   {[where |-> "rc", ver |-> v, name |-> nm, wsKey |-> w[1], dirs |-> w[2], dataDir |-> w[3],
     cache |-> IF ch[1] THEN "root" ELSE "none", hist |-> IF ch[2] THEN "root" ELSE "none",
     njobs |-> n, pdocUser |-> ux[1], pdocName |-> "", cfgExtra |-> ux[2], lock |-> FALSE]
-   : v \in {"absent", "0", "1", "3", "10"}, nm \in {"None", "plain", "fancy"}, w \in WsOptions,
+   : v \in {"absent", "0", "1", "3", "10"}, nm \in (IF SMALL THEN {"None", "fancy"} ELSE {"None", "plain", "fancy"}), w \in WsOptions,
      ch \in Bools(TRUE), n \in NJ, ux \in Bools(TRUE)}
 CfgWs ==   \* current-layout projects: with their workspace, or WITHOUT any 'workspace' directory (the job directories
            \* then sit in a custom-named data directory the configuration does not mention; only with >= 1 job)
@@ -79,7 +98,8 @@ Ops     == OpenOps \cup {"migrate"}
 ---------------------------------------------------------------------------
 UpToDate(l) == l.where = "cfg" /\ l.ver = "2"
 Legacy(l)   == l.where = "rc" /\ l.ver \in {"absent", "0", "1"}
-Colliding(l) == l.wsKey \in {"custom", "nested"} /\ l.dirs.workspace # "absent"
+Colliding(l) == LocOf(l.wsKey) # "workspace" /\ l.dirs.workspace # "absent"
+SelfColliding(l) == SelfSpelled(l.wsKey) /\ ~FixedD1                       \* DEVIATION D1 is active for this layout
 
 \* the gate: every way of opening refuses anything but the supported version, and never writes
 Gate(l) == IF UpToDate(l) THEN "ok" ELSE "IncompatibleSchemaVersion"
@@ -89,7 +109,7 @@ OpenEffect(l) == IF UpToDate(l) /\ l.dirs.workspace = "absent" THEN [l EXCEPT !.
 Resolved(l) == [l EXCEPT !.dirs.workspace = "absent"]
 
 \* one step of apply_migrations.  s = [pc, L, res]
-Step(s) ==
+Step(s, fx) ==
   LET L == s.L IN
   CASE s.pc = "start"  -> [s EXCEPT !.pc = "locked", !.L.lock = TRUE]
     [] s.pc = "locked" ->                                   \* _collect_migrations
@@ -100,9 +120,10 @@ Step(s) ==
     [] s.pc = "m01"    -> [s EXCEPT !.pc = "bump1"]                                         \* null migration
     [] s.pc = "bump1"  -> [s EXCEPT !.pc = "m12_ws", !.L.ver = "1"]
     [] s.pc = "m12_ws" ->                                   \* move a custom workspace to 'workspace', or fail
-         IF L.wsKey \in {"", "workspace"} THEN [s EXCEPT !.pc = "m12_name"]
-         ELSE IF L.dirs.workspace # "absent" THEN [s EXCEPT !.pc = "unlock", !.res = "RuntimeError"]
-         ELSE [s EXCEPT !.pc = "m12_name", !.L.dirs = [L.dirs EXCEPT ![L.wsKey] = "absent", !.workspace = L.dirs[L.wsKey]]]
+         IF L.wsKey \in {"", "workspace"} \/ (fx /\ SelfSpelled(L.wsKey)) THEN [s EXCEPT !.pc = "m12_name"]
+         ELSE IF L.dirs.workspace # "absent" THEN [s EXCEPT !.pc = "unlock", !.res = "RuntimeError"]   \* incl. D1
+         ELSE [s EXCEPT !.pc = "m12_name",
+                        !.L.dirs = [L.dirs EXCEPT ![LocOf(L.wsKey)] = "absent", !.workspace = L.dirs[LocOf(L.wsKey)]]]
     [] s.pc = "m12_name" ->                                 \* project name -> project document unless default
          IF L.name = "None" THEN [s EXCEPT !.pc = "m12_rewrite"]
          ELSE [s EXCEPT !.pc = "m12_rewrite", !.L.pdocName = L.name]
@@ -114,9 +135,10 @@ Step(s) ==
     [] s.pc = "bump2"  -> [s EXCEPT !.pc = "unlock", !.L.ver = "2"]
     [] s.pc = "unlock" -> [s EXCEPT !.pc = "done", !.L.lock = FALSE]                         \* the finally clause
     [] OTHER -> s
-RECURSIVE RunFrom(_)
-RunFrom(s) == IF s.pc = "done" THEN s ELSE RunFrom(Step(s))
-RunMig(l)  == RunFrom([pc |-> "start", L |-> l, res |-> "ok"])
+RECURSIVE RunFrom(_, _)
+RunFrom(s, fx) == IF s.pc = "done" THEN s ELSE RunFrom(Step(s, fx), fx)
+RunMig(l)  == RunFrom([pc |-> "start", L |-> l, res |-> "ok"], FixedD1)     \* what the code does
+RunReq(l)  == RunFrom([pc |-> "start", L |-> l, res |-> "ok"], TRUE)        \* what the property requires
 
 ---------------------------------------------------------------------------
 VARIABLES l0, op, s, round, mid
@@ -129,17 +151,17 @@ OpenOp == /\ op \in OpenOps /\ s.pc = "start"
           /\ s' = [s EXCEPT !.pc = "done", !.res = Gate(s.L), !.L = OpenEffect(s.L)]
           /\ UNCHANGED <<l0, op, round, mid>>
 Frame == UNCHANGED <<l0, op, round, mid>>
-Lock       == op = "migrate" /\ s.pc = "start" /\ s' = Step(s) /\ Frame
-Collect    == op = "migrate" /\ s.pc = "locked" /\ s' = Step(s) /\ Frame
-Null01     == op = "migrate" /\ s.pc = "m01" /\ s' = Step(s) /\ Frame
-Bump1      == op = "migrate" /\ s.pc = "bump1" /\ s' = Step(s) /\ Frame
-MoveWs     == op = "migrate" /\ s.pc = "m12_ws" /\ s' = Step(s) /\ Frame
-NameToDoc  == op = "migrate" /\ s.pc = "m12_name" /\ s' = Step(s) /\ Frame
-RewriteCfg == op = "migrate" /\ s.pc = "m12_rewrite" /\ s' = Step(s) /\ Frame
-MoveCfg    == op = "migrate" /\ s.pc = "m12_cfgmove" /\ s' = Step(s) /\ Frame
-MoveFiles  == op = "migrate" /\ s.pc = "m12_files" /\ s' = Step(s) /\ Frame
-Bump2      == op = "migrate" /\ s.pc = "bump2" /\ s' = Step(s) /\ Frame
-Unlock     == op = "migrate" /\ s.pc = "unlock" /\ s' = Step(s) /\ Frame
+Lock       == op = "migrate" /\ s.pc = "start" /\ s' = Step(s, FixedD1) /\ Frame
+Collect    == op = "migrate" /\ s.pc = "locked" /\ s' = Step(s, FixedD1) /\ Frame
+Null01     == op = "migrate" /\ s.pc = "m01" /\ s' = Step(s, FixedD1) /\ Frame
+Bump1      == op = "migrate" /\ s.pc = "bump1" /\ s' = Step(s, FixedD1) /\ Frame
+MoveWs     == op = "migrate" /\ s.pc = "m12_ws" /\ s' = Step(s, FixedD1) /\ Frame
+NameToDoc  == op = "migrate" /\ s.pc = "m12_name" /\ s' = Step(s, FixedD1) /\ Frame
+RewriteCfg == op = "migrate" /\ s.pc = "m12_rewrite" /\ s' = Step(s, FixedD1) /\ Frame
+MoveCfg    == op = "migrate" /\ s.pc = "m12_cfgmove" /\ s' = Step(s, FixedD1) /\ Frame
+MoveFiles  == op = "migrate" /\ s.pc = "m12_files" /\ s' = Step(s, FixedD1) /\ Frame
+Bump2      == op = "migrate" /\ s.pc = "bump2" /\ s' = Step(s, FixedD1) /\ Frame
+Unlock     == op = "migrate" /\ s.pc = "unlock" /\ s' = Step(s, FixedD1) /\ Frame
 \* the history continues: resolve a collision by hand and migrate again / simply migrate again; then open
 NeedsResolve == s.res = "RuntimeError" /\ Legacy(l0) /\ Colliding(s.L)
 ResolveCollision == /\ op = "migrate" /\ s.pc = "done" /\ round = 1 /\ NeedsResolve
@@ -174,7 +196,7 @@ RefuseFrame == [][(op \in OpenOps /\ ~UpToDate(l0)) => CurL' = CurL]_vars
 \* MigratePreserves: a legacy project comes out up to date with the same jobs, name in the document, files carried
 Done1 == op = "migrate" /\ s.pc = "done" /\ round = 1
 MigratePreserves ==
-  Done1 /\ Legacy(l0) /\ ~Colliding(l0) =>
+  Done1 /\ Legacy(l0) /\ ~Colliding(l0) /\ ~SelfColliding(l0) =>
     /\ s.res = "ok" /\ UpToDate(s.L) /\ Gate(s.L) = "ok"
     /\ s.L.dirs.workspace = "jobs" /\ s.L.njobs = l0.njobs
     /\ s.L.pdocUser = l0.pdocUser
@@ -202,7 +224,12 @@ MigrateRefuses == Done1 /\ ~Legacy(l0) /\ ~UpToDate(l0) => s.res = "RuntimeError
 UpToDateNoop   == Done1 /\ UpToDate(l0) => s.res = "ok" /\ s.L = l0
 \* a second migration never changes anything; afterwards the project opens iff the first one succeeded
 SecondNoop     == op = "migrate" /\ s.pc = "done" /\ round = 2 /\ ~(Legacy(l0) /\ Colliding(l0)) => s.L = mid
-OpensAfterwards == s.pc = "opened" /\ (Legacy(l0) \/ UpToDate(l0)) => s.res = "ok"
+OpensAfterwards == s.pc = "opened" /\ (Legacy(l0) \/ UpToDate(l0)) /\ ~SelfColliding(l0) => s.res = "ok"
+\* D1 as the code behaves: refused, and - like every refused migration - nothing but the null step's version bump
+D1Frame == Done1 /\ Legacy(l0) /\ SelfColliding(l0) =>
+             s.res = "RuntimeError" /\ s.L = [l0 EXCEPT !.ver = IF Num(l0.ver) = 0 THEN "1" ELSE l0.ver]
+\* the requirement function agrees with the code's chain wherever no deviation is active
+ReqAgrees == Done1 /\ ~SelfColliding(l0) => RunReq(l0) = s
 LockHeld == (op = "migrate" /\ s.pc \notin {"start", "done", "opened"}) <=> s.L.lock
 CurVer == Num(s.L.ver)
 VersionMonotone == [][CurVer' >= CurVer]_vars
@@ -213,12 +240,13 @@ ChainIsFunction == Done1 => s = RunMig(l0)
 CaseOf(l, o) ==
   IF o \in OpenOps
   THEN [l0 |-> l, op |-> o, res |-> Gate(l), post |-> OpenEffect(l), resolved |-> FALSE, res2 |-> "", post2 |-> l,
-        open |-> "", openjobs |-> 0, post3 |-> l]
+        open |-> "", openjobs |-> 0, post3 |-> l, reqres |-> Gate(l), reqpost |-> OpenEffect(l)]
   ELSE LET a == RunMig(l)
            fix == a.res = "RuntimeError" /\ Legacy(l) /\ Colliding(a.L)
            b == RunMig(IF fix THEN Resolved(a.L) ELSE a.L)
        IN [l0 |-> l, op |-> o, res |-> a.res, post |-> a.L, resolved |-> fix, res2 |-> b.res, post2 |-> b.L,
-           open |-> Gate(b.L), openjobs |-> IF b.L.dirs.workspace = "jobs" THEN b.L.njobs ELSE 0, post3 |-> OpenEffect(b.L)]
+           open |-> Gate(b.L), openjobs |-> IF b.L.dirs.workspace = "jobs" THEN b.L.njobs ELSE 0, post3 |-> OpenEffect(b.L),
+           reqres |-> RunReq(l).res, reqpost |-> RunReq(l).L]
 Export == /\ TLCGet("level") >= 0
           /\ IF MODE = "file"
              THEN ndJsonSerialize(IOEnv.CASES_OUT, [i \in 1..Len(FileIn) |-> CaseOf(FileIn[i].l0, FileIn[i].op)])
